@@ -119,9 +119,9 @@ def gen_file(rng, fid, journald):
     elif x < 0.11 and recs:
         # a genuine record that is itself longer than 64 KiB (a very deep path)
         trigger = "long-record"
-        big = rng.choice([r for r in recs if r.get("expect") and "name" in dict(r["fields"])] or recs)
+        big = rng.choice([r for r in recs if r.get("expect") and "/" in dict(r["fields"]).get("name", "")] or recs)
         deep = "/deep" * 14000
-        big["fields"] = [(k, (v.rsplit("/", 1)[0] + deep + "/" + v.rsplit("/", 1)[1]) if k == "name" else v) for (k, v) in big["fields"]]
+        big["fields"] = [(k, (v.rsplit("/", 1)[0] + deep + "/" + v.rsplit("/", 1)[1]) if k == "name" and "/" in v else v) for (k, v) in big["fields"]]
     elif x < 0.14:
         trigger = "invalid-utf8"
         lines.insert(rng.randrange(len(lines) + 1), b"Jan  5 host kernel: \xff\xfe\x80 broken bytes")
